@@ -92,3 +92,15 @@ Theorem C07_flat_gae_env_independent_partial : forall (c0 : list gstep) (rest1 r
   firstn (length c0) (ppo_flat_gae (c0 :: rest1) g l) = firstn (length c0) (ppo_flat_gae (c0 :: rest2) g l).
 Proof. exact ppo_flat_env_independent_partial. Qed.
 Print Assumptions C07_flat_gae_env_independent_partial.
+
+(** The learning signal computed from a sampled sub-trajectory by the MR.Q encoder loss (masked model rollout): everything
+    after the first terminated step is ignored - for every prefix, every later data and every weight in force; the variant
+    with a non-cumulative mask (the seeded changes C03/m1, C07/r2m1) is refuted *)
+Theorem C07_rollout_ignores_post_terminal : forall (pre post post' : list (R * R)) (l m : R),
+  masked_rollout m (pre ++ (l, 0) :: post) = masked_rollout m (pre ++ (l, 0) :: post').
+Proof. exact rollout_ignores_post_terminal. Qed.
+Print Assumptions C07_rollout_ignores_post_terminal.
+Theorem C07_rollout_noncumulative_mask_refuted : exists (pre post post' : list (R * R)) (l : R),
+  rollout_noncum 1 (pre ++ (l, 0) :: post) <> rollout_noncum 1 (pre ++ (l, 0) :: post').
+Proof. exact rollout_noncum_refuted. Qed.
+Print Assumptions C07_rollout_noncumulative_mask_refuted.
